@@ -180,9 +180,23 @@ static const int BOXTAG = 77;
 struct Rec
 {
     E e;
-    int id;
-    explicit Rec(int x) : e(x), id(x + 1000) {}
+    explicit Rec(int x) : e(x) {}
 };
+// child variants live in an arena that is only recycled between cases: a run that is outside the contract (std::variant itself
+// constructs from an object inside the alternative it has just destroyed) then still never touches freed memory; the registry
+// is what knows which objects are alive
+alignas(16) static unsigned char g_arena[1 << 16];
+static size_t g_arena_used = 0;
+template <class V, class... Args>
+static V* arena_new(Args&&... args)
+{
+    const size_t sz = (sizeof(V) + 15) & ~size_t(15);
+    if (g_arena_used + sz > sizeof g_arena) { std::printf("arena exhausted\n"); std::abort(); }
+    void* p = g_arena + g_arena_used;
+    g_arena_used += sz;
+    return new (p) V(std::forward<Args>(args)...);
+}
+template <class V> static void arena_delete(V* p) { if (p) p->~V(); }
 template <class A> struct Box;
 template <class A> using TreeV = typename A::template variant<E, Rec, Box<A>>;
 template <class A>
@@ -193,7 +207,7 @@ struct Box
     explicit Box(V* c) : child(c) { born(this, BOXTAG); }
     Box(const Box& o) : child(nullptr)
     {
-        if (src_ok(&o, BOXTAG, "copy-construction from") && o.child) child = new V(*o.child);
+        if (src_ok(&o, BOXTAG, "copy-construction from") && o.child) child = arena_new<V>(*o.child);
         born(this, BOXTAG);
     }
     Box(Box&& o) noexcept : child(nullptr)
@@ -205,10 +219,10 @@ struct Box
     Box& operator=(const Box& o)
     {
         if (!src_ok(this, BOXTAG, "copy-assignment to") || !src_ok(&o, BOXTAG, "copy-assignment from") || this == &o) return *this;
-        V* n = o.child ? new V(*o.child) : nullptr;
+        V* n = o.child ? arena_new<V>(*o.child) : nullptr;
         V* old = child;
         child = n;
-        delete old;
+        arena_delete(old);
         return *this;
     }
     Box& operator=(Box&& o) noexcept
@@ -218,14 +232,14 @@ struct Box
         o.child = nullptr;
         V* old = child;
         child = n;
-        delete old;
+        arena_delete(old);
         return *this;
     }
     ~Box()
     {
         const bool ok = alive(this, BOXTAG);
         died(this, BOXTAG);
-        if (ok) delete child;
+        if (ok) arena_delete(child);
     }
 };
 
@@ -241,16 +255,16 @@ struct AliasWorld
     {
         const int val = 10 + int(pos);
         const char c = shape[pos];
-        if (c == 'E') return new V(typename A::template ipi<0>{}, val);
-        if (c == 'R') return new V(typename A::template ipi<1>{}, val);
+        if (c == 'E') return arena_new<V>(typename A::template ipi<0>{}, val);
+        if (c == 'R') return arena_new<V>(typename A::template ipi<1>{}, val);
         if (c == 'X')
         {
-            V* v = new V(typename A::template ipi<0>{}, val);
+            V* v = arena_new<V>(typename A::template ipi<0>{}, val);
             try { v->template emplace<0>(BoomTag{}); } catch (const Boomed&) {}
             return v;
         }
         V* child = make(shape, pos + 1);
-        return new V(typename A::template ipi<2>{}, child);
+        return arena_new<V>(typename A::template ipi<2>{}, child);
     }
     static void collect(V& v, const std::string& path, std::vector<Node>& out, int guard = 0)
     {
@@ -352,7 +366,8 @@ struct AliasWorld
         Outcome o;
         R().reset();
         {
-            std::unique_ptr<V> root(make(shape));
+            g_arena_used = 0;
+            struct Root { V* p; ~Root() { arena_delete(p); } V& operator*() const { return *p; } } root{make(shape)};
             std::vector<Node> nodes;
             collect(*root, "root", nodes);
             std::vector<int> vars;
